@@ -5,6 +5,7 @@
 package zzvrt
 
 import (
+	"encoding/hex"
 	"encoding/json"
 	"fmt"
 	"go/ast"
@@ -19,6 +20,7 @@ import (
 	"strconv"
 	"strings"
 	"syscall"
+	"time"
 )
 
 type draw struct {
@@ -346,6 +348,34 @@ func nativeCompareDecls(a, b, mode string) (string, bool) {
 	nCmp++
 	return compareDeclsNative(a, b, mode)
 }
+
+// text kernels (native edition)
+func SymBytes(n int) []byte {
+	b, _ := hex.DecodeString(next("bytes").Str)
+	return b
+}
+
+func fields(kind string) []int {
+	var out []int
+	for _, f := range strings.Split(next(kind).Str, ",") {
+		n, _ := strconv.Atoi(f)
+		out = append(out, n)
+	}
+	return out
+}
+
+func SymDate() time.Time {
+	f := fields("date")
+	return time.Date(f[0], time.Month(f[1]), f[2], 0, 0, 0, 0, time.UTC)
+}
+
+func SymClock() time.Time {
+	f := fields("clock")
+	return time.Date(0, 1, 1, f[0], f[1], f[2], 0, time.UTC)
+}
+
+func SameInstant(a, b time.Time) bool { return a.Equal(b) }
+func BytesEq(a, b []byte) bool       { return string(a) == string(b) }
 
 // MethodTypes: receiver type names of the declarations of method in src.
 func MethodTypes(src, method string) []string {
